@@ -219,6 +219,76 @@ class Patcher:
             return bytes(d[:k]), "truncated to %d bytes" % k
         raise ValueError(site)
 
+    def sweep_offsets(self, body=10):
+        """absolute offsets of every structured byte: database header, page headers, cell pointer arrays, and of every
+        cell its header, record header, the first `body` and the last `body` bytes of the local payload, the overflow
+        pointer; first 8 bytes of every overflow page"""
+        offs = set(range(16, 100))
+        for p, (pg, root) in self.pages.items():
+            b = self.base(p)
+            interior = pg.kind in ("ti", "ii")
+            hl = 12 if interior else 8
+            offs.update(range(b + pg.hdr, b + pg.hdr + hl + 2 * pg.ncells))
+            for c in pg.cells:
+                start = b + c.off
+                if c.payload_off is None:
+                    offs.update(range(start, start + 13))     # table interior cell: pointer + rowid varint
+                    continue
+                pay = b + c.payload_off
+                nloc = len(c.local)
+                hs = c.local[0] if c.local and c.local[0] < 0x80 else 9
+                offs.update(range(start, pay))
+                offs.update(range(pay, pay + min(nloc, hs + body)))
+                offs.update(range(pay + max(0, nloc - body), pay + nloc + (4 if c.ovfl else 0)))
+        for p, root in self.ovfl:
+            offs.update(range(self.base(p), self.base(p) + 8))
+        return sorted(o for o in offs if o < len(self.data))
+
+    def sweep(self, off, cls):
+        d = bytearray(self.data)
+        old = d[off]
+        v = {"zero": 0, "max32": 0xFF, "plus-one": (old + 1) & 0xFF, "minus-one": (old - 1) & 0xFF, "huge-length": old | 0x80}[cls]
+        if v == old:
+            return None
+        d[off] = v
+        return bytes(d), "byte at %d (page %d +%d): %02x -> %02x" % (off, off // self.ps + 1, off % self.ps, old, v)
+
+    def shortened(self):
+        """every cell's payload length reduced by 2..8 (single-byte varints only)"""
+        out = []
+        for kind, off, old in self.sites("payload-length"):
+            if old < 0x80:
+                for k in range(2, 9):
+                    if old - k >= 1:
+                        d = bytearray(self.data)
+                        d[off] = old - k
+                        out.append((bytes(d), "payload length at %d: %d -> %d" % (off, old, old - k)))
+        return out
+
+    def journal_headers(self):
+        """[(class, journal bytes, description)]: a well-formed journal header with one field replaced, or cut"""
+        magic = bytes([0xd9, 0xd5, 0x05, 0xf9, 0x20, 0xa1, 0x63, 0xd7])
+        base = {"nrec": 1, "nonce": 0x1234567, "initial": self.f.npages, "sector": 512, "pagesize": self.ps}
+        order = ["nrec", "nonce", "initial", "sector", "pagesize"]
+
+        def build(vals):
+            sector = vals["sector"] if 28 <= vals["sector"] <= 65536 else 512
+            hdr = magic + b"".join(struct.pack(">I", vals[k] & 0xFFFFFFFF) for k in order)
+            hdr += b"\x00" * (sector - len(hdr))
+            rec = struct.pack(">I", 2) + self.data[self.ps:2 * self.ps] + struct.pack(">I", 0)
+            return hdr + rec
+        out = []
+        for fld in order:
+            b = base[fld]
+            alts = [("zero", 0), ("plus-one", b + 1), ("minus-one", b - 1)] + [("doubled", 1 << k) for k in range(32)] + \
+                [("max32", x) for x in (0xFFFFFFFF, 0x7FFFFFFF, 0x80000000)] + [("huge-length", x) for x in (1 << 20, (1 << 24) + 1, (1 << 30) - 1)]
+            for cls, val in alts:
+                out.append((cls, build(dict(base, **{fld: val})), "journal header %s = %d" % (fld, val)))
+        whole = build(base)
+        for n in list(range(0, 40)) + [511, 512, 513, 516, len(whole) - 1]:
+            out.append(("cut", whole[:n], "well-formed journal cut at %d bytes" % n))
+        return out
+
     def journal(self, cls):
         rnd = self.rnd
         if cls == "random-byte":
